@@ -947,6 +947,12 @@ func runWorld(t *testing.T, raw json.RawMessage) (any, error) {
 	var final []json.RawMessage
 	var fatal error
 	synctest.Test(t, func(t *testing.T) {
+		// a panic in this goroutine (the bubble's root) would take the whole binary down: turn it into an error
+		defer func() {
+			if r := recover(); r != nil {
+				fatal = fmt.Errorf("harness panic while running the case: %v", r)
+			}
+		}()
 		w := &world{t: t, opts: wc}
 		w.build(objs)
 		// pre-seeded EDS/ERS/setting status must be written through the status subresource
